@@ -215,6 +215,12 @@ def transform(rng, kind, d=2, n_align=None):
         h[:d, d] = rng.uniform(-5, 5, d)
         h[d, :d] = rng.uniform(-0.002, 0.002, d)  # mildly projective, denominators stay near 1 on our points
         return mt.Homogeneous(h)
+    if kind == "ScaledHomogeneous":
+        # an affine map written with a homogeneous scale w != 1 (the same map as h / w)
+        h = np.eye(d + 1)
+        h[:d, :d] = well_conditioned(rng, d)
+        h[:d, d] = rng.uniform(-5, 5, d)
+        return mt.Homogeneous(h * [2.0, 0.5, -3.0, 4.0][rng.integers(0, 4)])
     if kind == "Affine":
         h = np.eye(d + 1)
         h[:d, :d] = well_conditioned(rng, d)
